@@ -48,8 +48,8 @@ func runC12(c *Ctx) {
 		return
 	}
 	type regMethod struct {
-		fd    *ast.FuncDecl
-		obj   *types.Func
+		fd     *ast.FuncDecl
+		obj    *types.Func
 		field  string
 		pref   string
 		query  bool
@@ -290,6 +290,33 @@ func runC12(c *Ctx) {
 			return true
 		})
 	}
+	// asksRegistry: a query method, or a package function whose body calls one (a wrapper that asks and records)
+	var asksRegistry func(fn *types.Func, depth int) bool
+	asksRegistry = func(fn *types.Func, depth int) bool {
+		for i := range methods {
+			if methods[i].query && types.Object(methods[i].obj) == types.Object(fn) {
+				return true
+			}
+		}
+		if depth >= 2 || fn.Pkg() != p.Types {
+			return false
+		}
+		found := false
+		for _, fd := range allFuncDecls(p) {
+			if info.Defs[fd.Name] != types.Object(fn) || fd.Body == nil {
+				continue
+			}
+			ast.Inspect(fd.Body, func(n ast.Node) bool {
+				if call, ok := n.(*ast.CallExpr); ok {
+					if cf := calleeOf(info, call); cf != nil && cf != fn && asksRegistry(cf, depth+1) {
+						found = true
+					}
+				}
+				return !found
+			})
+		}
+		return found
+	}
 	// the list rule: a function that writes the .Function / .Class of every element of a list it is given, without asking
 	// the registry itself, may only be given a list that a collector (above) returned
 	for _, b := range funcBodies(p) {
@@ -301,10 +328,8 @@ func runC12(c *Ctx) {
 		directNodes(b.Body, func(n ast.Node) bool {
 			if call, ok := n.(*ast.CallExpr); ok {
 				fn := calleeOf(info, call)
-				for i := range methods {
-					if methods[i].query && types.Object(methods[i].obj) == types.Object(fn) {
-						asks = true
-					}
+				if fn != nil && asksRegistry(fn, 0) {
+					asks = true
 				}
 			}
 			if rs, ok := n.(*ast.RangeStmt); ok && rs.Value != nil {
